@@ -82,29 +82,16 @@ def run(ctx):
     # ---- R2 positives propagate --------------------------------------------------------------
     b = test_fn
     pl = PairLoops(f, b, 'Intersect', 'intersects')
+    b = pl.b            # the nest form of the overlap function
     cfgb, trb = pl.cfg, pl.tr
     rep.floor('R2', 'Intersect::intersects call sites in the overlap function', len(pl.leafs), 2, where(b))
-    true_blocks = set()
-    false_blocks = set()
-    for bi in sorted(cfgb.reach):
-        for s in b.blocks[bi]['stmts']:
-            if s['s'] == 'assign' and s['place']['l'] == 0 and not s['place']['p'] and s['rv']['r'] == 'use' and \
-                    s['rv']['a'].get('k') == 'const':
-                (true_blocks if const_value(s['rv']['a']) is True else false_blocks).add(bi)
-    hdrs = {d['header'] for d in pl.loops}
-    for n_leaf, (bi, t) in enumerate(pl.leafs):
-        nxt = t['target']
-        sw = b.blocks[nxt]['term']
-        ok = False
-        why = 'the result of intersects() is not branched on'
-        if sw['t'] == 'switch' and trb.origin(sw['discr']).get('bb') == bi:
-            tt = sw['otherwise']
-            okp, bad = cfgb.all_paths_pass_through([tt], true_blocks, until=hdrs)
-            later_false = cfgb.reachable_from(list(true_blocks & cfgb.reachable_from([tt]))) & false_blocks
-            ok = okp and not later_false
-            why = 'positive -> _0 = true -> return (no path back into the loops, no later overwrite)' if ok else \
-                'a positive intersects() result can be lost: paths %s avoid `return true` / overwritten by false in %s' % (bad, sorted(later_false))
-        rep.check(ok, 'R2', 'positive-overlap-propagates:#%d' % (n_leaf + 1), where(b, bi), why, why)
+    # the function's answer is "some tested pair overlaps": true on every path that saw a positive test, false on every other
+    from ..nest import Nest
+    nn = Nest(f, test_fn, yields=False)
+    okr, whyr = nn.bool_reduction([bi for bi, _ in pl.leafs])
+    rep.check(okr, 'R2', 'positive-overlap-propagates', where(b),
+              'the overlap function %s' % whyr,
+              'a positive intersects() result can be lost or a negative one reported as overlap: the function %s' % whyr)
     # ---- R3 pair completeness ------------------------------------------------------------------
     for p in pl.problems:
         rep.fail('R3', 'loop-structure', where(b), p, 'undecidable-shape')
@@ -337,9 +324,15 @@ def _shell_witnesses(ctx, pl, per):
                     if nm.endswith('Cell2::' + k):
                         return SYM(k)
         return None
+    # the decision starts at the closest block every assignment of the shell count goes through
+    cands = [x for x in cfg.reach if all(cfg.dominates(x, d) for d in defs)] if defs else [0]
+    start_bb = 0
+    for x in cands:
+        if all(cfg.dominates(y, x) for y in cands):
+            start_bb = x
     for w in SHELL_WITNESSES:
         env = {'a': Fraction(w['a']), 'b': Fraction(w['b']), 'angle': Fraction(w['angle'])}
-        bb = 0
+        bb = start_bb
         got = None
         why = ''
         for _ in range(200):
